@@ -193,18 +193,9 @@ func checkRandNames(w *World, r *Result) {
 	nb := 0
 	ast.Inspect(cb.Decl.Body, func(x ast.Node) bool {
 		cc, ok := x.(*ast.CaseClause)
-		if !ok || len(cc.List) != 1 || len(cc.Body) != 1 {
+		if !ok || len(cc.List) == 0 || len(cc.Body) != 1 {
 			return true
 		}
-		tv := info.Types[cc.List[0]]
-		if tv.Value == nil {
-			return true
-		}
-		k, _ := constant.Int64Val(tv.Value)
-		if k <= 0 || int(k) >= len(types.Typ) {
-			return true
-		}
-		want := types.Typ[k].Name()
 		as, ok := cc.Body[0].(*ast.AssignStmt)
 		if !ok {
 			return true
@@ -213,23 +204,52 @@ func checkRandNames(w *World, r *Result) {
 		if !ok {
 			return true
 		}
-		got := ""
-		if len(call.Args) == 1 {
-			if av := info.Types[call.Args[0]]; av.Value != nil {
-				got = constant.StringVal(av.Value)
+		for _, ke := range cc.List {
+			tv := info.Types[ke]
+			if tv.Value == nil {
+				continue
 			}
-		} else if fn := calleeOf(info, call); fn != nil && w.Funcs[fn] != nil {
-			ast.Inspect(w.Funcs[fn].Decl.Body, func(y ast.Node) bool {
-				if bl, ok := y.(*ast.BasicLit); ok && bl.Kind == token.STRING {
-					if m := regexp.MustCompile(`func rand(\w+)\(`).FindStringSubmatch(bl.Value); m != nil {
-						got = m[1]
+			k, _ := constant.Int64Val(tv.Value)
+			if k <= 0 || int(k) >= len(types.Typ) {
+				continue
+			}
+			want := types.Typ[k].Name()
+			got := ""
+			dynamic := ""
+			if len(call.Args) == 1 {
+				if av := info.Types[call.Args[0]]; av.Value != nil {
+					got = constant.StringVal(av.Value)
+				} else if c2, ok := ast.Unparen(call.Args[0]).(*ast.CallExpr); ok {
+					switch fullName(calleeOf(info, c2)) {
+					case "(*go/types.Basic).Name":
+						dynamic = "basic-name"
+					default:
+						if fn := calleeOf(info, c2); fn != nil && fn.Name() == "functionIDBasicOrNamed" {
+							dynamic = "function-id"
+						}
 					}
 				}
-				return true
-			})
+			} else if fn := calleeOf(info, call); fn != nil && w.Funcs[fn] != nil {
+				ast.Inspect(w.Funcs[fn].Decl.Body, func(y ast.Node) bool {
+					if bl, ok := y.(*ast.BasicLit); ok && bl.Kind == token.STRING {
+						if m := regexp.MustCompile(`func rand(\w+)\(`).FindStringSubmatch(bl.Value); m != nil {
+							got = m[1]
+						}
+					}
+					return true
+				})
+			}
+			nb++
+			cons := "case " + es(ke) + ": rand" + got
+			switch dynamic {
+			case "function-id":
+				r.ok("AGR-C01a", cb.Name, "case "+es(ke)+": rand<functionID>", w.Pos(cc.Pos()), "the function is named by the same functionID its call sites use", true)
+			case "basic-name":
+				r.bad("AGR-C01a", cb.Name, "case "+es(ke)+": rand<Basic.Name()>", w.Pos(cc.Pos()), "the generated function is named after (*types.Basic).Name(), which is `byte` / `rune` for the alias spellings of uint8 / int32, while the call sites use functionID, which normalises them to uint8 / int32: a byte or rune field calls randuint8 / randint32, which is never declared")
+			default:
+				r.cond(got == want, "AGR-C01a", cb.Name, cons, w.Pos(cc.Pos()), "the literal function name equals go/types' name of the kind ("+want+"), which is what functionID returns for it", "for "+es(ke)+" the generated function is rand"+got+" but call sites use rand"+want+" (functionID = go/types name of the kind)")
+			}
 		}
-		nb++
-		r.cond(got == want, "AGR-C01a", cb.Name, "case "+es(cc.List[0])+": rand"+got, w.Pos(cc.Pos()), "the literal function name equals go/types' name of the kind ("+want+"), which is what functionID returns for it", "for "+es(cc.List[0])+" the generated function is rand"+got+" but call sites use rand"+want+" (functionID = go/types name of the kind)")
 		return true
 	})
 	if nb < 8 {
